@@ -94,11 +94,73 @@ def mk_tx(coin, ver, ins, outs, lock, i, amount, witness=False):
     for k, x in enumerate(ins):
         t = Tx.TxIn(_prev(x["prev"]), _le(x["idx"]), bytes(x["script"]), _le(x["seq"]))
         if witness:
-            t.witness = (b"\x30" * 9, bytes([2 + (k & 1)]) * 33)
+            t.witness = _witness_of(k)
         txs_in.append(t)
     txs_out = [Tx.TxOut(_le(o["val"]), bytes(o["script"])) for o in outs]
     unspents = [Tx.TxOut(other_amount(amount, j, i), b"\x51" * (j + 1)) for j in range(len(ins))]
     return Tx(_le(ver), txs_in, txs_out, _le(lock), unspents=unspents)
+
+
+def _witness_of(k):
+    return (b"\x30" * 9, bytes([2 + (k & 1)]) * 33)
+
+
+def apply_edit(coin, tx, e, after, style=0):
+    """One edit of the LIVE transaction object between two requests.  e = {f, j} names the field
+    as the spec does; the new value is read from `after`, the fields the spec prints for the
+    state after the edit (ShowT).  style 0 assigns the attribute of the existing TxIn / TxOut
+    object, style 1 puts a new TxIn / TxOut object in its place; appends and removals work on
+    the object's own lists."""
+    Tx = network(coin).tx
+    f, j = e["f"], e["j"] - 1
+
+    def new_in(k):
+        x = after["ins"][k]
+        t = Tx.TxIn(_prev(x["prev"]), _le(x["idx"]), bytes(x["script"]), _le(x["seq"]))
+        if k < len(tx.txs_in):
+            t.witness = tx.txs_in[k].witness
+        return t
+
+    def new_out(k):
+        return Tx.TxOut(_le(after["outs"][k]["val"]), bytes(after["outs"][k]["script"]))
+    if f == "ver":
+        tx.version = _le(after["ver"])
+    elif f == "lock":
+        tx.lock_time = _le(after["lock"])
+    elif f == "amount":
+        if style:
+            tx.unspents[j] = Tx.TxOut(_le(after["amts"][j]), tx.unspents[j].script)
+        else:
+            tx.unspents[j].coin_value = _le(after["amts"][j])
+    elif f in ("in.prev", "in.idx", "in.sigscript", "in.seq"):
+        if style:
+            tx.txs_in[j] = new_in(j)
+        else:
+            x = after["ins"][j]
+            setattr(tx.txs_in[j], {"in.prev": "previous_hash", "in.idx": "previous_index", "in.sigscript": "script",
+                                   "in.seq": "sequence"}[f],
+                    {"in.prev": lambda: _prev(x["prev"]), "in.idx": lambda: _le(x["idx"]),
+                     "in.sigscript": lambda: bytes(x["script"]), "in.seq": lambda: _le(x["seq"])}[f]())
+    elif f in ("out.val", "out.script"):
+        if style:
+            tx.txs_out[j] = new_out(j)
+        elif f == "out.val":
+            tx.txs_out[j].coin_value = _le(after["outs"][j]["val"])
+        else:
+            tx.txs_out[j].script = bytes(after["outs"][j]["script"])
+    elif f == "ins.append":
+        k = len(tx.txs_in)
+        t = new_in(k)
+        if any(x.witness for x in tx.txs_in):
+            t.witness = _witness_of(k)
+        tx.txs_in.append(t)
+        tx.unspents.append(Tx.TxOut(_le(after["amts"][k]), b"\x51" * (k + 1)))
+    elif f == "outs.append":
+        tx.txs_out.append(new_out(len(tx.txs_out)))
+    elif f == "outs.droplast":
+        tx.txs_out.pop()
+    else:
+        raise ValueError("unknown edit %r" % (e,))
 
 
 def project(tx):
@@ -291,14 +353,75 @@ class Session(object):
         return _call(self.closures[k], ht, [bytes(x) for x in sigs], FakeVM(bytes(script), begin))
 
 
-def run_trace(coin, tx, requests):
-    """requests: [(sv, i, script, begin, sigs, ht)].  One Session (checker + closures) for the
-    whole trace.  Returns the events {r, raised, res, after} (res = 32 digest bytes as a list)."""
+def random_edit(rnd, coin, tx):
+    """The owner of the object changes it between two requests (seeded; any public attribute or
+    list of the Tx / TxIn / TxOut objects, by assignment, by replacing the element, by rebinding
+    the list).  Returns the name of what was changed."""
+    Tx = network(coin).tx
+    nin, nout = len(tx.txs_in), len(tx.txs_out)
+    kinds = ["version", "lock_time", "in.sequence", "in.previous_index", "in.previous_hash", "in.script", "in.witness",
+             "unspent.coin_value", "ins.append", "outs.append", "outs.rebind"]
+    if nout:
+        kinds += ["out.coin_value", "out.script", "out.replace", "outs.pop"] * 2
+    kind = rnd.choice(kinds)
+    j, o = rnd.randrange(nin), rnd.randrange(nout) if nout else 0
+    val = rnd.choice((0, 1, 546, (1 << 63) - 1, (1 << 64) - 1, rnd.randrange(1 << 64)))
+    u32 = rnd.choice((0, 1, 0xFFFFFFFE, 0xFFFFFFFF, rnd.randrange(1 << 32)))
+    scr = rnd.randbytes(rnd.choice((0, 1, 22, 25, 34, 253)))
+    if kind == "version":
+        tx.version = u32
+    elif kind == "lock_time":
+        tx.lock_time = u32
+    elif kind == "in.sequence":
+        tx.txs_in[j].sequence = u32
+    elif kind == "in.previous_index":
+        tx.txs_in[j].previous_index = u32
+    elif kind == "in.previous_hash":
+        tx.txs_in[j].previous_hash = rnd.randbytes(32)
+    elif kind == "in.script":
+        tx.txs_in[j].script = scr
+    elif kind == "in.witness":
+        tx.txs_in[j].witness = (scr, b"\x02" * 33) if rnd.random() < 0.7 else ()
+    elif kind == "unspent.coin_value":
+        if rnd.random() < 0.5:
+            tx.unspents[j].coin_value = val
+        else:
+            tx.unspents[j] = Tx.TxOut(val, tx.unspents[j].script)
+    elif kind == "ins.append":
+        tx.txs_in.append(Tx.TxIn(rnd.randbytes(32), u32 % 7, scr, rnd.choice((0, 0xFFFFFFFF))))
+        tx.unspents.append(Tx.TxOut(val, b"\x51"))
+    elif kind == "outs.append":
+        tx.txs_out.append(Tx.TxOut(val, scr))
+    elif kind == "outs.rebind":
+        tx.txs_out = [Tx.TxOut(t.coin_value, t.script) for t in tx.txs_out] + [Tx.TxOut(val, scr)]
+    elif kind == "out.coin_value":
+        tx.txs_out[o].coin_value = val
+    elif kind == "out.script":
+        tx.txs_out[o].script = scr
+    elif kind == "out.replace":
+        tx.txs_out[o] = Tx.TxOut(val, scr)
+    elif kind == "outs.pop":
+        tx.txs_out.pop(o)
+    return kind
+
+
+def run_trace(coin, tx, steps):
+    """steps: [("ask", sv, i, script, begin, sigs, ht) | ("edit", seed)].  One Session (checker +
+    closures) and one transaction object for the whole trace.  Returns the events
+    {k: "ask", r, raised, res, after} (res = 32 digest bytes as a list) / {k: "edit", what, after}."""
+    import random
     session = Session(tx)
     evs = []
-    for sv, i, script, begin, sigs, ht in requests:
+    for st in steps:
+        if st[0] == "edit":
+            what = random_edit(random.Random(st[1]), coin, tx)
+            evs.append({"k": "edit", "what": what, "after": tx_json(tx)})
+            continue
+        sv, i, script, begin, sigs, ht = st[1:]
+        pbefore = project(tx)
         o = session.ask(sv, i, script, begin, sigs, ht)
-        ev_ = {"r": request_json(coin, sv, i, script, begin, sigs, ht),
+        ev_ = {"k": "ask", "r": request_json(coin, sv, i, script, begin, sigs, ht),
+               "py_unchanged": project(tx) == pbefore, "nouts": len(tx.txs_out),
                "raised": 1 if o[0] == "raised" else 0,
                "res": _b(o[1].to_bytes(32, "big")) if o[0] == "digest" and 0 <= o[1] < (1 << 256) else [],
                "bad_value": o[1] if o[0] == "value" else None,
